@@ -191,6 +191,19 @@ func boundOK(at ssa.Instruction, x ssa.Value, bound ssa.Value) (bool, string) {
 	if m, ok := typeMax(b.Type()); ok && lenKnown && m <= n {
 		return true, ""
 	}
+	// the count of the latest of several reads into x ( n, _ := r.Read(x); for n > 0 { use x[:n]; n, _ = r.Read(x) } ): a merged value
+	// all of whose inputs are such counts
+	if ph, ok := b.(*ssa.Phi); ok {
+		all := len(ph.Edges) > 0
+		for _, e := range ph.Edges {
+			if okE, _ := boundOK(at, x, e); !okE {
+				all = false
+			}
+		}
+		if all {
+			return true, ""
+		}
+	}
 	// count returned by a read/copy into (a slice of) x
 	if e, ok := b.(*ssa.Extract); ok && e.Index == 0 {
 		if call, ok := e.Tuple.(*ssa.Call); ok {
